@@ -577,9 +577,12 @@ class Bf3File:
             if comptype == BF3TYPE.MAIN:
                 comp_comment = "Main Firmware"
             elif comptype == BF3TYPE.LOADER:
-                rev_intf_map = {v: k for k, v in BF3INTF.__dict__.items()}
-                intf = int.from_bytes(comp.description[BF3TAG.INTF], "big")
-                comp_comment = rev_intf_map[intf] + " Loader Firmware"
+                if BF3TAG.INTF in comp.description:
+                    rev_intf_map = {v: k for k, v in BF3INTF.__dict__.items()}
+                    intf = int.from_bytes(comp.description[BF3TAG.INTF], "big")
+                    comp_comment = rev_intf_map[intf] + " Loader Firmware"
+                else:
+                    comp_comment = "Loader Firmware"
             elif comptype == BF3TYPE.PERIPHERAL:
                 hwcid = int.from_bytes(comp.description[BF3TAG.HWCID], "big")
                 hwcname = REV_HWCID_MAP.get(hwcid, "HWC 0x{:X}".format(hwcid))
